@@ -24,7 +24,11 @@ int main(int argc, char **argv)
       if (!st || celt_decoder_init(st, Fs, ch) != OPUS_OK) return 2;
       for (s = 0; s < steps; s++) {
          int LM = vbelow(&r, 4), N = (Fs / 400) << LM, before = st->loss_duration, ret;
-         int reps = vchance(&r, 5) ? 1300 + vbelow(&r, 9000) : 1, k;
+         int reps = vchance(&r, 1) && i % 16 == 0 ? 1300 + vbelow(&r, 9000) : 1, k;   /* a few genuine runs to saturation */
+         if (reps == 1 && vchance(&r, 8)) {
+            /* most saturation cases start from a counter placed just below the cap (the field is a plain int) */
+            st->loss_duration = 9900 + (int)vbelow(&r, 101); reps = 5 + vbelow(&r, 120);
+         }
          if (vchance(&r, 30)) {
             if (!quiet) { printf("I decskel lossgood %d\n", LM); fflush(stdout); }
             ret = celt_decode_with_ec(st, silence, 2, pcm, N, NULL, 0);
